@@ -60,6 +60,9 @@ func c04Reaches(v *c03V, key string) bool {
 		if v.Key != "" && v.Key == key {
 			return true
 		}
+		if v.K == c03KInit && v.Root != nil && v.Root.Kind == "assert" && walk(v.Root.Of, d+1) {
+			return true
+		}
 		for _, f := range v.From {
 			if walk(f, d+1) {
 				return true
